@@ -98,6 +98,8 @@ def classes(d):
     out = {f"groups={len(d['groups'])}"}
     if (d.get("pad") or ["", ""])[0]:
         out.add("leading_whitespace")
+    if any(len(sx["lst"]["items"]) >= 17 for g in d["groups"] for sx in g["secs"]):
+        out.add("long_section_list")
     for g in d["groups"]:
         out.add(f"tr={g['tr_sp']}")
         out.add(f"digits={len(str(g['twp']))}/{len(str(g['rge']))}")
@@ -118,8 +120,17 @@ def case(layout):
     # a Twp/Rge written without its directions (read with the default N / W) is unambiguous only where a section keyword or the
     # end of the text follows it: the two layouts in which the section comes first after / before it
     spellings = tuple(G.TR_SPELLINGS_ALL) if layout in ("TRS_desc", "S_desc_TR") else None
-    return st.tuples(G.description(layout=layout, spellings=spellings), st.sampled_from(LEAD_PAD), st.sampled_from(TRAIL_PAD)).map(
-        lambda t: dict(t[0], pad=[t[1], t[2]]))
+    def build(t):
+        d, lead, trail, long_list = t
+        if long_list is not None:
+            # one section group names a long list (a township of sections written out one by one)
+            groups = [dict(g, secs=[dict(sx) for sx in g["secs"]]) for g in d["groups"]]
+            groups[0]["secs"][0]["lst"] = long_list
+            d = dict(d, groups=groups)
+        return dict(d, pad=[lead, trail])
+
+    long_lists = st.one_of(*([st.none()] * 11 + [L.long_rendered_list("sec", 99, (17, 20, 26))]))
+    return st.tuples(G.description(layout=layout, spellings=spellings), st.sampled_from(LEAD_PAD), st.sampled_from(TRAIL_PAD), long_lists).map(build)
 
 
 def mk(layout):
@@ -127,7 +138,7 @@ def mk(layout):
                nontrivial=nontrivial, classes=classes, render=render,
                n={"quick": 550, "thorough": 12000}, shards={"quick": 4, "thorough": 4},
                essential=("groups=2", "groups=3", "sec=range", "sec=list", "tr=words", "tr=abbr", "tr=dashed", "tr=lower",
-                          "multiline_block", "leading_whitespace"))
+                          "multiline_block", "leading_whitespace", "long_section_list"))
 
 
 SUBS = [mk(lay) for lay in G.LAYOUTS]
